@@ -53,3 +53,25 @@ def ghost_bool(name, *args):
 
 def ghost_int(name, *args):
     return int(GHOST_IMPL[name](*args))
+UF_IMPL = {}
+
+
+def uf_impl(name):
+    """register the concrete reading of an uninterpreted function symbol used through uf(name, type, *args)"""
+    def deco(fn):
+        UF_IMPL[name] = fn
+        return fn
+    return deco
+
+
+def uf(name, ty, *args):
+    return UF_IMPL[name](*args)
+
+
+def same(a, b):
+    import math
+    if isinstance(a, float) and isinstance(b, float) and math.isnan(a) and math.isnan(b):
+        return True
+    if isinstance(a, (list, dict, set)) or hasattr(a, '__dict__'):
+        return a is b
+    return a == b
